@@ -13,7 +13,15 @@ PARAM = ('parametricity: generic code (Segment<T>, Piecewise<T>, PiecewiseEvalua
 Z3W = 'tools/z3wrap.sh changes one Z3 heuristic option (smt.arith.nl) for Verus queries; unsat answers are as sound as before'
 
 
-NOT_APPLICABLE = {}
+NOT_APPLICABLE = {
+    'C18': ('no contract within reach can decide it: the round trip is the behaviour of proc-macro output (serde/borsh derives) composed with third-party format code, not of a function in /repo. '
+            'Measured: Kani harnesses `from_slice(to_vec(v)) == v` through the real borsh 1.8 crate for Knot/Poly3/Poly8/IntOfLogPoly4/Segment/Piecewise(1 piece) all ran out of the 15 min budget '
+            '(Vec<u8> writer and reader loops with input-dependent bounds); serde needs a format crate and text formats (ryu printing/parsing) are out of reach for CBMC; Verus has no model of the derive output. '
+            'Not claimed rather than tested by another technique (DESIGN.md section 6/C18).'),
+    'C19': ('no contract within reach can decide it: <Piecewise<T> as Arbitrary>::arbitrary is dominated by Vec::<f64>::arbitrary of the external `arbitrary` crate (iterator + collect with an input-dependent length). '
+            'Measured: the Kani harness over symbolic byte strings finishes only for the empty input; a ONE-byte input did not finish in 20 min and 12 GB; Kani 0.68 cannot stub generic trait functions '
+            '(`<Vec<f64> as Arbitrary>::arbitrary`), and Verus has no specs for all/sort_by/map/collect over fallible closures. The consequences C19 draws (evaluation of well-formed functions) are C02/C03/C12/C16.'),
+}
 
 
 def H(name, module, bound=None, complete=False, functions=(), extra=(), mustpanic=False):
@@ -306,6 +314,23 @@ PROPS['C04'] = {
                     'bounded (Kani wiring): 3..5 knots (quick) / 3..6 (thorough), coordinates in 0..15; the numeric kernels are stubbed there and proved separately by Verus',
                     'UNCHECKED: the floating-point deviation bound (small multiple of 2^-53 scaled by the conditioning (|x|/dx)^3) - exact arithmetic only'],
 }
+PROPS['C05'] = {
+    'verus': ['u_spline'],
+    'kani': PROPS['C04']['kani'],
+    'probe': True,
+    'level': 'other',
+    'explanation': 'Over the contracts of C04 (f_dx == Kruger slope; segment == the Hermite cubic through both knots with the prescribed end slopes; wiring by Kani), '
+                   'Verus proves for all real secant slopes: the interior-knot slope is 0 whenever the adjacent secants differ in sign or either is 0, otherwise it lies '
+                   'between 0 and twice each adjacent secant (lemma_kruger_range); the end-knot slope 3/2 s - 1/2 f lies between s/2 and 3s/2 (lemma_end_slope_range); hence on '
+                   'every interval both end-slope ratios f/secant are in [0,3] and vanish with the secant (lemma_c05_slope_ratios). That a cubic Hermite segment with both ratios '
+                   'in [0,3] is monotone and stays between its end ordinates for EVERY real x of the interval is the Fritsch-Carlson condition (textbook theorem, not machine-checked here). '
+                   'Collinear knots: all secants equal s, every slope equals s, so c = d = 0 (segment contract). Coincidence with the exact Kruger spline: the four Hermite '
+                   'conditions of the segment contract determine the cubic uniquely.',
+    'assumptions': [FM_NOTE, FM_BITS, TY_NOTE, Z3W,
+                    'UNCHECKED (textbook mathematics): Fritsch-Carlson: a cubic Hermite segment whose end-slope/secant ratios lie in [0,3] is monotone on its interval; '
+                    'a machine-checked Verus proof was attempted and abandoned (degree-4 real identities in 7 variables exceed what the installed Z3 configurations discharge; see DESIGN.md)',
+                    'bounded (Kani wiring): as C04', 'UNCHECKED: floating-point rounding bound (exact arithmetic only)'],
+}
 LIN = ['src/linear.rs: linear (closure over the running forced knot)', 'src/linear.rs: incr_linear']
 PROPS['C06'] = {
     'verus': ['u_linear'],
@@ -325,6 +350,37 @@ PROPS['C06'] = {
                     'bounded (Kani wiring): 2..5 knots', 'that evaluation between two knots picks the right segment is C02'],
 }
 PROPS['C06']['kani']['thorough'] = PROPS['C06']['kani']['quick']
+
+
+TINY = 'numbers are integer-valued doubles in [-8,8]; epsilon in {0,1}; (epsilon,max_relative) in {(0,0.5),(1,0)}'
+
+
+def c17_set(full):
+    out = [H(f'c17_poly{k}', 'poly', TINY, False, [f'src/poly.rs: impl AbsDiffEq/RelativeEq for Poly{k}']) for k in range(0, 9)]
+    out += [H(n, 'poly', TINY + '; lengths ' + n[len('c17_polyn_'):].replace('_', ' vs '), False, ['src/poly.rs: impl AbsDiffEq/RelativeEq for PolyN'])
+            for n in ('c17_polyn_2_2', 'c17_polyn_2_3', 'c17_polyn_0_1', 'c17_polyn_0_0')]
+    out += [H('c17_log_wrappers', 'log_poly', TINY, False, ['src/log_poly.rs: impl AbsDiffEq/RelativeEq for Log<T>, IntOfLog<T>']),
+            H('c17_quartic', 'log_poly', TINY, False, ['src/log_poly.rs: impl AbsDiffEq/RelativeEq for IntOfLogPoly4'])]
+    sizes = ['1_1', '2_2', '1_2', '2_1', '0_1', '0_0'] + (['3_3'] if full else [])
+    out += [H(f'c17_pw_{s}', 'piecewise', TINY + '; numbers of pieces ' + s.replace('_', ' vs '), False,
+              ['src/piecewise.rs: impl AbsDiffEq/RelativeEq for Segment<T>, Piecewise<T>']) for s in sizes]
+    return out
+
+
+PROPS['C17'] = {
+    'verus': [],
+    'kani': {'quick': [kset('c17', c17_set(False), timeout=2400, extra=['--solver', 'kissat'])],
+             'thorough': [kset('c17', c17_set(True), timeout=6000, extra=['--solver', 'kissat'])]},
+    'probe': False,
+    'level': 'model_checking',
+    'explanation': 'Kani harnesses through the real approx crate: for every type implementing the approx traits (Poly0..Poly8, PolyN, Log<T>, IntOfLog<T>, IntOfLogPoly4, '
+                   'Segment<T>, Piecewise<T>) abs_diff_eq and relative_eq equal the conjunction of f64::abs_diff_eq / f64::relative_eq over every corresponding pair of '
+                   'numbers (coefficients, additive constants, breakpoints) under the same tolerances, and PolyN / Piecewise of different lengths are never approximately '
+                   'equal. Reflexivity, symmetry, implication by == and sensitivity to a single perturbed number follow from the conjunction form.',
+    'assumptions': ['bounded: ' + TINY + ' (float comparison against products is intractable for CBMC on full-range doubles)',
+                    'bounded: PolyN lengths <= 3, Piecewise pieces <= 2 (quick) / 3 (thorough); wrappers instantiated with Poly1',
+                    'the conjunction oracle calls f64::abs_diff_eq / relative_eq of the approx crate itself (trusted as the meaning of the tolerances)'],
+}
 
 
 def mp(name, module, what):
